@@ -197,6 +197,7 @@ func genC12(seed uint64, run int, tier string) Scenario {
 	}
 	sc.Ops = append(sc.Ops, OpSpec{Kind: "close"})
 	sc.Class = sc.Driver + "/" + flavour
+	sc.CutEnum = pickCutEnum(run, 6)
 
 	return sc
 }
@@ -209,6 +210,7 @@ func runC12(env *Env, s Scenario) {
 	}
 	out := env.K.Run(done, sc.Deadline(), Micro(sc.ReadDelayUS)*20+time.Millisecond)
 	env.Finish(out)
+	sc.noteCutBase(env, sr.Tr)
 	c11Writes, c11Emitted = sr.Tr.NWrites(), sr.Tr.Emitted()
 	env.Context = func() string {
 		var sb strings.Builder
@@ -408,6 +410,7 @@ func init() {
 		Gen:    genC12,
 		New:    func() Scenario { return &Session{} },
 		Run:    runC12,
+		Expand: func(b Scenario, res *Result, tier string) []Scenario { return expandSessionCuts(b, res, tier, 150) },
 		Shrink: shrinkSession,
 	})
 }
